@@ -31,11 +31,37 @@ pub fn bodies() -> Vec<(&'static str, Vec<u8>)> {
     ]
 }
 
+/// every concatenation of up to three atoms: text, a non-UTF-8 byte, both line-ending styles, both blank-line
+/// styles, a header-like line — so that binary bytes, later blank lines and header-like text occur in every order
+pub fn atom_bodies() -> Vec<(String, Vec<u8>)> {
+    let atoms: [(&str, &[u8]); 7] = [("x", b"x"), ("80", &[0x80]), ("crlf", b"\r\n"), ("lf", b"\n"), ("crlfcrlf", b"\r\n\r\n"), ("lflf", b"\n\n"), ("hdr", b"X: y\r\n")];
+    let mut out: Vec<(String, Vec<u8>)> = vec![];
+    let mut cur: Vec<(String, Vec<u8>)> = vec![(String::new(), vec![])];
+    for _ in 0..3 {
+        let mut next = vec![];
+        for (n, b) in &cur {
+            for (an, ab) in atoms {
+                let mut nb = b.clone();
+                nb.extend_from_slice(ab);
+                next.push((format!("{n}{}{an}", if n.is_empty() { "" } else { "." }), nb));
+            }
+        }
+        out.extend(next.clone());
+        cur = next;
+    }
+    out
+}
+
 pub fn check_msg(r: &mut Report, p: &HttpProcessors, m: &Msg, family: &str) {
+    let fixed: Vec<(String, Vec<u8>)> = bodies().into_iter().map(|(n, b)| (n.to_string(), b)).collect();
+    let all: Vec<(String, Vec<u8>)> = if family == "start-line" || family == "status-line" { fixed.into_iter().chain(atom_bodies()).collect() } else { fixed };
+    check_msg_bodies(r, p, m, family, &all)
+}
+pub fn check_msg_bodies(r: &mut Report, p: &HttpProcessors, m: &Msg, family: &str, all_bodies: &[(String, Vec<u8>)]) {
     let head = m.head1("\r\n");
     let e = expect(m);
     let mut base: Option<String> = None;
-    for (bname, body) in bodies() {
+    for (bname, body) in all_bodies.iter().cloned() {
         let mut data = head.clone();
         data.extend(&body);
         r.exec(1);
@@ -44,7 +70,7 @@ pub fn check_msg(r: &mut Report, p: &HttpProcessors, m: &Msg, family: &str) {
         match got {
             Err(pn) => r.dev("C05/panic", "panic", || json!({"ctx": ctx(), "detail": pn})),
             Ok(None) => {
-                let class = if body.is_empty() { "head-not-reported".to_string() } else if std::str::from_utf8(&body).is_err() { "non-utf8-body-suppresses-result".to_string() } else { format!("body-suppresses-result/{bname}") };
+                let class = if body.is_empty() { "head-not-reported".to_string() } else if std::str::from_utf8(&body).is_err() { "non-utf8-body-suppresses-result".to_string() } else { "body-suppresses-result".to_string() };
                 r.dev(format!("C05/{class}"), class.clone(), || json!({"ctx": ctx(), "expected": format!("{e:?}")}));
             }
             Ok(Some((repr, diffs))) => {
@@ -58,7 +84,7 @@ pub fn check_msg(r: &mut Report, p: &HttpProcessors, m: &Msg, family: &str) {
                     base = Some(repr);
                 } else if let Some(b) = &base {
                     if *b != repr {
-                        r.dev(format!("C05/body-changes-result/{bname}"), "body-changes-result", || json!({"ctx": ctx(), "without_body": b, "with_body": repr}));
+                        r.dev("C05/body-changes-result", "body-changes-result", || json!({"ctx": ctx(), "without_body": b, "with_body": repr}));
                     }
                 } else if !diffs.is_empty() {
                     let class = diffs.join("+");
